@@ -67,10 +67,12 @@ class RegionBoundingBox:
         if iymin > iymax:
             raise ValueError('iymin must be <= iymax')
 
-        self.ixmin = ixmin
-        self.ixmax = ixmax
-        self.iymin = iymin
-        self.iymax = iymax
+        # store Python integers: numpy integer scalars of a narrow width
+        # would overflow in the arithmetic done with the limits
+        self.ixmin = int(ixmin)
+        self.ixmax = int(ixmax)
+        self.iymin = int(iymin)
+        self.iymax = int(iymax)
 
     @classmethod
     def from_float(cls, xmin, xmax, ymin, ymax):
